@@ -393,6 +393,17 @@ fn build_case(raw: &RawCase, cfg: &GenCfg) -> Case {
         .iter()
         .map(|t| t.iter().map(|o| resolve(o, len, cfg)).collect())
         .collect();
+    if kind.wrapped() {
+        // on the ticket protocol a bare reservation or an out-of-turn `get` waits for a pull that a
+        // sequential history never makes: not part of the sequence domain
+        for t in threads.iter_mut() {
+            for o in t.iter_mut() {
+                if matches!(o, Op::LlProgress { .. } | Op::LlGet { .. } | Op::LlStore { .. } | Op::LlFetchAdd { .. }) {
+                    *o = Op::LlFetchOne;
+                }
+            }
+        }
+    }
     if cfg.end_with_drain {
         for (i, t) in threads.iter_mut().enumerate() {
             let (sel, r) = raw.end_drains[i % raw.end_drains.len()];
